@@ -1388,6 +1388,10 @@ pub struct BlockedFlushCase {
     /// false: flush issued behind a blocked emit; true: emit issued behind a blocked flush
     #[serde(default)]
     pub emit_behind_flush: bool,
+    /// the sink is dropped with lines buffered while the receiver queue is full (the final
+    /// write blocks until there is room): "send what remains when ... dropped"
+    #[serde(default)]
+    pub drop_with_full_receiver: bool,
 }
 
 pub struct BlockedFlushCampaign {
@@ -1403,11 +1407,12 @@ impl Campaign for BlockedFlushCampaign {
         6
     }
     fn strategy(&self, _tier: Tier) -> BoxedStrategy<BlockedFlushCase> {
-        (prop_oneof![Just(16u16), Just(32), Just(64), 16u16..200], 1u8..12, any::<bool>())
-            .prop_map(|(cap, metric_len, emit_behind_flush)| BlockedFlushCase {
+        (prop_oneof![Just(16u16), Just(32), Just(64), 16u16..200], 1u8..12, 0u8..3)
+            .prop_map(|(cap, metric_len, mode)| BlockedFlushCase {
                 cap,
                 metric_len,
-                emit_behind_flush,
+                emit_behind_flush: mode == 1,
+                drop_with_full_receiver: mode == 2,
             })
             .boxed()
     }
@@ -1431,6 +1436,9 @@ impl Campaign for BlockedFlushCampaign {
                 return Outcome::ok();
             }
         };
+        if case.drop_with_full_receiver {
+            return drop_behind_full_receiver(case, rx, path, sock, w);
+        }
         if case.emit_behind_flush {
             return emit_behind_blocked_flush(case, rx, path, sock, w);
         }
@@ -1559,6 +1567,66 @@ impl Campaign for BlockedFlushCampaign {
     }
 }
 
+
+/// A buffered sink on a blocking socket is dropped with lines still buffered while the
+/// receiver queue is full: the final write waits for room, nothing may be lost.
+fn drop_behind_full_receiver(case: &BlockedFlushCase, mut rx: Rx, path: PathBuf, sock: UnixDatagram, w: Duration) -> Outcome {
+    let cap = (case.cap as usize).max(32);
+    let sink = BufferedUnixMetricSink::with_capacity(&path, sock, cap);
+    let mut bad: Vec<String> = Vec::new();
+    let mut acked: Vec<String> = Vec::new();
+    let mut used = 0usize;
+    for i in 0..8usize {
+        let m = format!("d{}{}:1|c", i, "z".repeat(case.metric_len as usize % 6));
+        if used + m.len() + 1 >= cap {
+            break;
+        }
+        match sink.emit(&m) {
+            Ok(_) => {
+                used += m.len() + 1;
+                acked.push(m);
+            }
+            Err(e) => bad.push(format!("emit into a buffer with room failed: {}", e)),
+        }
+    }
+    rx.clog();
+    let dropper = std::thread::spawn(move || drop(sink));
+    std::thread::sleep(Duration::from_millis(40));
+    let drop_blocked = !dropper.is_finished();
+    let mut got: Vec<Vec<u8>> = rx.unclog();
+    let deadline = Instant::now() + w;
+    while !dropper.is_finished() && Instant::now() < deadline {
+        got.extend(rx.recv_all(false));
+        std::thread::sleep(Duration::from_micros(200));
+    }
+    if !dropper.is_finished() {
+        bad.push("dropping the sink still blocks although the receiver is being drained".into());
+    } else {
+        let _ = dropper.join();
+        std::thread::sleep(Duration::from_millis(1));
+        got.extend(rx.recv_all(false));
+        let text: String = got.iter().filter(|d| d.as_slice() != FILLER).map(|d| String::from_utf8_lossy(d).into_owned()).collect();
+        for m in &acked {
+            let n = text.split_terminator('\n').filter(|l| *l == m.as_str()).count();
+            if n != 1 {
+                bad.push(format!(
+                    "metric '{}' was acknowledged and still buffered when the sink (blocking socket) was dropped while the receiver queue was full; it arrived {} times: the remainder was not sent on drop",
+                    m, n
+                ));
+                break;
+            }
+        }
+    }
+    Outcome {
+        verdict: match bad.first() {
+            None => Ok(()),
+            Some(b) => Err(b.clone()),
+        },
+        nontrivial: drop_blocked && !acked.is_empty(),
+        fingerprint: util::hash_json(case),
+        classes: vec![if drop_blocked { "sink dropped with lines buffered while the receiver queue is full (drop waits)" } else { "drop did not block" }],
+    }
+}
 
 /// A flush is blocked inside the sink (receiver queue full); another thread's emit
 /// waits behind it. Once both have returned, a further flush must send that metric.
